@@ -1,4 +1,6 @@
 import CsVerif.Model.C19
+import CsVerif.Model.C19Gen
+import CsVerif.Model.PyUShow
 /-!
 Line-protocol driver for the C19 model.
 
@@ -20,6 +22,13 @@ Line-protocol driver for the C19 model.
             G<key> | T<T|F><key>                     get_handlers(key) | one loop iteration (silent flag, get_task result)
             I                                        metadata.bid : aes_rand : aes key : hmac key : info
             <reg>                                    a registration (lower-case first letter)
+
+  g<line of id / idr / run / gh / loop>              the same case run through the definitions TRANSLATED from the source of
+                                                     client.py (Gen/PyClient.lean; glue Model/C19Gen.lean): `normalise_beacon_id`,
+                                                     `session_keys`, `make_info`; the registration code, `get_handlers`, `dispatch`
+  gidv <v> / ginfov <v> <v> <v>                      translated `normalise_beacon_id` / `make_info` on arguments of any kind
+                                                     (value notation: Model/PyUShow.lean)
+  pyu <op> <operands>                                one operation of Model/PyU_T19.lean
 
   handler code = id*32 + callable + 2*truthy + 4*raises + 8*responds + 16*form   (form: harness only)
   reg  = h/<arg>/<hc> | r/<key>/<hc> | c/<hc> | a/<name>/<hc> | k/<name>/<hc>
@@ -198,6 +207,164 @@ def showAnswer : HAnswer → String
   | .ident a =>
     s!"{a.beaconId}:{Hex.encode a.keys.aesRand}:{Hex.encode a.keys.aesKey}:{Hex.encode a.keys.hmacKey}:{Hex.encode a.info}"
 
+
+/-! ### `g-*` streams: the definitions translated from the source of client.py -/
+
+open PyU (V) in
+def showIntV : V → String
+  | .int n => toString n
+  | v => "?" ++ PyU.vShow v
+
+open PyU (V) in
+def bytesV? : V → Option Bytes
+  | .bytes b => some b
+  | _ => none
+
+open PyU (V) in
+/-- the answer of `run` from the value of `C19Gen.runG` -/
+def showRunG : V → String
+  | .tuple [.int bid, .tuple [.bytes ar, .bytes ak, .bytes hk], .bytes info] =>
+    s!"{bid} {showBytes ar} {showBytes ak} {showBytes hk} {showBytes info} {metadataLen info}"
+  | v => "?" ++ PyU.vShow v
+
+open PyU (V) in
+def showIdsV : V → String
+  | .list xs =>
+    if xs.isEmpty then "~"
+    else ".".intercalate (xs.map fun x => match C19Gen.decH x with | some h => toString h.id | none => "?")
+  | v => "?" ++ PyU.vShow v
+
+open PyU (V) in
+def keyOfV : V → String
+  | .none => "n"
+  | .int n => toString n
+  | v => "?" ++ PyU.vShow v
+
+open PyU (V) in
+/-- `task_map` of the client value -/
+def showViewV : V → String
+  | .inst _ [.dict ks vs] =>
+    if ks.isEmpty then "-" else ",".intercalate ((ks.zip vs).map fun kv => keyOfV kv.1 ++ ":" ++ showIdsV kv.2)
+  | v => "?" ++ PyU.vShow v
+
+open PyU (V) in
+def showEventV : V → String
+  | .tuple [.int 0, .int i] => s!"c{i}"
+  | .tuple [.int 1, .int i] => s!"s{i}"
+  | .tuple [.int 2] => "z"
+  | v => "?" ++ PyU.vShow v
+
+open PyU (V) in
+/-- `get_handlers` for each key in turn (the translated method does not change the client value) -/
+def ghAllG (c : Client) (cv : V) (ks : List Key) : List String :=
+  ks.map fun k =>
+    match Gen.PyClient.get_handlers (C19Gen.getattrX C19Gen.encH c) cv (C19Gen.encKey k) with
+    | .ok v => showIdsV v
+    | .error e => "exc:" ++ e.name
+
+open PyU (V) in
+/-- the loop over scripted `get_task()` results: the empty-task / silent test and the final sleep as in the (shape-checked) rest of
+`_beacon_loop`, the dispatch part TRANSLATED -/
+def runLoopG (silent : Bool) (c : Client) (cv : V) : List (Option Int) → List String × Option PyExc
+  | [] => ([], none)
+  | t :: ts =>
+    if t = none ∧ ¬ silent then
+      let (evs, r) := runLoopG silent c cv ts
+      ("z" :: evs, r)
+    else
+      match Gen.PyClient.dispatch (C19Gen.getattrX C19Gen.encH c) C19Gen.callableH C19Gen.invokeH cv (C19Gen.encTask t) with
+      | .error e => ([], some e)
+      | .ok v =>
+        match C19Gen.flattenEvents v with
+        | none => (["?" ++ PyU.vShow v], none)
+        | some es =>
+          let (evs, r) := runLoopG silent c cv ts
+          (es.map showEventV ++ "z" :: evs, r)
+
+def classesG : List PyU.Cls :=
+  [Gen.PyClient.HttpBeaconClientCls, C19Gen.ValueObjCls, C19Gen.CommandCls, C19Gen.TaskCls, C19Gen.HandlerCls]
+
+def vTokG (s : String) : Option PyU.V :=
+  PyU.vTok (fun cid => if cid == Gen.PyClient.BeaconCommand.cid then some Gen.PyClient.BeaconCommand else none)
+    (fun cid => classesG.find? (·.cid == cid)) s
+
+def strOfV : PyU.V → Option String
+  | .str cs => some (String.ofList (cs.map Char.ofNat))
+  | _ => none
+
+open PyU in
+def pyuStep : List String → String
+  | [op, a] =>
+    match vTokG a with
+    | none => "bad-op"
+    | some a =>
+      match op with
+      | "decutf8ign" => showPy vShow (decodeUtf8Ignore a)
+      | "intenum" => showPy vShow (intEnumCall Gen.PyClient.BeaconCommand a)
+      | "enumname" => showPy vShow (do let m ← intEnumCall Gen.PyClient.BeaconCommand a; let n ← getAttr m "name"; pure (.tuple [n, .bool (truthy m)]))
+      | _ => "bad-op"
+  | [op, a, b, c] =>
+    match vTokG a, vTokG b, vTokG c with
+    | some a, some b, some c =>
+      match op with
+      | "tobytes" => showPy vShow (toBytes a b c)
+      | "replace2" => showPy vShow (strReplace a b c)
+      | "setattr" =>
+        match strOfV b with
+        | some n => showPy vShow (setAttr a n c)
+        | none => "bad-op"
+      | _ => "bad-op"
+    | _, _, _ => "bad-op"
+  | _ => "bad-op"
+
+def gstep : List String → String
+  | ["gid", i] =>
+    match intTok i with
+    | some i => showPy showIntV (Gen.PyClient.normalise_beacon_id (C19Gen.getrandbitsX 0) (.int i))
+    | none => "bad-op"
+  | ["gidr", i] =>
+    match intTok i with
+    | some i => showPy showIntV (Gen.PyClient.normalise_beacon_id (C19Gen.getrandbitsX i) .none)
+    | none => "bad-op"
+  | ["gidv", a] =>
+    match vTokG a with
+    | some a => showPy PyU.vShow (Gen.PyClient.normalise_beacon_id (C19Gen.getrandbitsX 6) a)
+    | none => "bad-op"
+  | ["ginfov", a, b, c] =>
+    match vTokG a, vTokG b, vTokG c with
+    | some a, some b, some c => showPy PyU.vShow (Gen.PyClient.make_info a b c)
+    | _, _, _ => "bad-op"
+  | ["grun", i, c, u, q, ar, dg] =>
+    match intTok i, natsTok c, natsTok u, natsTok q, bytesTok ar, bytesTok dg with
+    | some i, some c, some u, some q, some ar, some dg =>
+      showPy showRunG (C19Gen.runG (C19Gen.getrandbitsX 0) (fun _ _ => .ok (.int (PyU.beNat ar 0))) (fun _ => .ok (.bytes dg))
+        (.int i) (.str c) (.str u) (.str q))
+    | _, _, _, _, _, _ => "bad-op"
+  | "ggh" :: rest =>
+    match regsAndLast rest with
+    | some (regs, last) =>
+      match tasksTok last with
+      | some keys =>
+        let c := (applyRegs {} regs).1
+        let (cv, errs) := C19Gen.applyRegsG C19Gen.encH C19Gen.newClientG regs
+        let outs := ghAllG c cv keys
+        s!"{if outs.isEmpty then "-" else ",".intercalate outs} {showRegErrs errs} {showViewV cv}"
+      | none => "bad-op"
+    | none => "bad-op"
+  | "gloop" :: sl :: rest =>
+    match boolTok sl, regsAndLast rest with
+    | some sl, some (regs, last) =>
+      match tasksTok last with
+      | some tasks =>
+        let c := (applyRegs {} regs).1
+        let (cv, errs) := C19Gen.applyRegsG C19Gen.encH C19Gen.newClientG regs
+        let (evs, r) := runLoopG sl c cv tasks
+        s!"{if evs.isEmpty then "-" else ",".intercalate evs} {showOutcome r} {showRegErrs errs} {showViewV cv}"
+      | none => "bad-op"
+    | _, _ => "bad-op"
+  | "pyu" :: rest => pyuStep rest
+  | _ => "bad-op"
+
 def step : List String → String
   | ["id", i] =>
     match intTok i with
@@ -264,6 +431,6 @@ def step : List String → String
         let (st, answers) := runHistory p {} steps
         " ".intercalate (answers.map showAnswer) ++ " " ++ showView st.client.view
       | _, _ => "bad-op"
-  | _ => "bad-op"
+  | ws => gstep ws
 
 end C19
